@@ -171,6 +171,9 @@ func ReadFile(r Reader, out interface{}, cb func(val unsafe.Pointer, rb *Resourc
 		if err != nil {
 			return fmt.Errorf("reading data block length. %w", err)
 		}
+		if dataLength < 0 {
+			return fmt.Errorf("negative data block length %d", dataLength)
+		}
 		if cap(compressed) < int(dataLength) {
 			compressed = make([]byte, dataLength)
 		} else {
@@ -260,6 +263,9 @@ func readBytes(r Reader) ([]byte, error) {
 	l, err := binary.ReadVarint(r)
 	if err != nil {
 		return nil, err
+	}
+	if l < 0 {
+		return nil, fmt.Errorf("negative length %d", l)
 	}
 	v := make([]byte, l)
 	_, err = io.ReadFull(r, v)
